@@ -101,7 +101,9 @@ CLAIMED = {
              'write_hop (hopping over frames that do not bind x is invisible to the dynamic walk), resolved_read_eq_dynamic and '
              'resolved_write_eq_dynamic (an annotation whose skipped frames do not bind the name denotes the same cell, for reads and '
              'assignments), lookupSteps_sound (the pass annotates with the nearest static scope that knows the name, only if defined there), '
-             'announced_stays_dynamic, resolve_symbol_only_annotates, resolve_refuses_only_upfront, double_define_refused. Correspondence and '
+             'announced_stays_dynamic, reaches_announced / reachable_define_stays_dynamic (every define that evaluation can execute in the frame - statement, do block or operand of any '
+             'form at any depth - is announced by predefine and is never resolved statically before it has been passed), case_key_untouched, '
+             'resolve_symbol_only_annotates, resolve_refuses_only_upfront, double_define_refused. Correspondence and '
              'search: twin interpreters expand->optimize->resolve->eval vs expand->optimize->eval on generated programs (incl. std macros, eval of '
              'quoted code), plus the reference evaluator as second opinion.',
         ref='DESIGN.md §6 C07', note='The global preservation theorem (run-time invariant static scopes = parent chain through every operator) is proved on the prototype calculus only '
